@@ -16,7 +16,7 @@ ASSUMPTIONS = ['no schedule dimension', 'reads are made right after start_at/eac
 PROBES = []
 PLAN = {
   'quick': {'strata': {'reports': 6000}, 'wall_s': 300, 'chunk': 100, 'min_conclusive': 1000},
-  'thorough': {'strata': {'reports': 150000}, 'wall_s': 900, 'chunk': 250, 'min_conclusive': 10000},
+  'thorough': {'strata': {'reports': 150000}, 'wall_s': 900, 'chunk': 250, 'min_conclusive': 1000},
 }
 ORACLES = [co.check_state_reports]
 
